@@ -45,3 +45,21 @@ Print Assumptions C05_acceptor_sound.
 Theorem C05_sequential_answers : forall (D : nat -> option nat), (forall i, D i = None -> D (S i) = None) ->
   forall (W : nat -> nat -> nat * bool), (forall c i, WaitOK D i (W c i)) -> forall c i, at_ D W c i = D i.
 Proof. exact at_spec. Qed.
+
+(* ---- every schedule, not only a helpful one (ConcTerm.v) ----
+   Between calls nothing can spin: from a reachable state whose pending calls belong to readers below n, every
+   schedule of k internal steps satisfies k + G(end) <= G(start) for the explicit measure G, so all schedules are
+   finite; and a schedule that cannot be extended has returned every pending call.  No fairness assumption. *)
+Require ConcTerm.
+Theorem C05_reach_support : forall B K valid s, 0 < B -> reach B K valid s -> exists n, ConcTerm.support s n.
+Proof. intros B K valid s HB. exact (ConcTerm.reach_support B K HB valid s). Qed.
+Theorem C05_internal_runs_bounded : forall B K valid k s s' n, 0 < B -> reach B K valid s -> ConcTerm.support s n ->
+  ConcTerm.isteps_n B K valid k s s' ->
+  reach B K valid s' /\ ConcTerm.support s' n /\ k + ConcTerm.G B K n s' <= ConcTerm.G B K n s.
+Proof. intros B K valid k s s' n HB. exact (ConcTerm.internal_runs_bounded B K HB valid k s s' n). Qed.
+Print Assumptions C05_internal_runs_bounded.
+Theorem C05_maximal_schedules_return_every_call : forall B K valid k s s' n, 0 < B -> reach B K valid s ->
+  ConcTerm.support s n -> ConcTerm.isteps_n B K valid k s s' ->
+  (forall l s'', step B K valid s' l s'' -> is_call l = true) -> forall t, rpc s' t = RIdle.
+Proof. intros B K valid k s s' n HB. exact (ConcTerm.stuck_means_all_returned B K HB valid k s s' n). Qed.
+Print Assumptions C05_maximal_schedules_return_every_call.
